@@ -645,7 +645,7 @@ def random_event(rng, world, geoms):
         focus = (gb[2] - 100, gb[1], gb[2] + 60, gb[1] + 200) if rng.random() < 0.5 else (100, 100, 300, 300)
     else:
         lay = rng.choice(tl)
-        z = rng.randint(0, len(W.GRID['res']) - 1)
+        z = rng.randint(0, len(W.GRID['res']) - (2 if f == 'kml.doc' else 1))   # the KML document of the last level is a 500 (not C10)
         res = W.GRID['res'][z]
         cols, rows = (gb[2] - gb[0]) // (res * ts[0]), tile_rows(z)
         col, row = rng.randint(0, cols - 1), rng.randint(0, rows - 1)
